@@ -15,10 +15,10 @@
 (* document as an error (the statement permits reporting an error).                     *)
 EXTENDS TraceLib, TensorStore
 
-VARIABLES l, nbad, ndrift, ncase, nstep, nok, a, cid, src, hist   \* src/hist: source and operations of the current chain (for replay)
+VARIABLES l, nbad, ndrift, ncase, nstep, nok, nnoop, a, cid, src, hist   \* src/hist: source and operations of the current chain (for replay)
 
 e == Rec[l]
-Init == /\ l = 1 /\ nbad = NoBad /\ ndrift = NoBad /\ ncase = 0 /\ nstep = 0 /\ nok = 0
+Init == /\ l = 1 /\ nbad = NoBad /\ ndrift = NoBad /\ ncase = 0 /\ nstep = 0 /\ nok = 0 /\ nnoop = 0
         /\ a = T(<<>>, <<0>>) /\ cid = 0 /\ src = [source |-> "", shape |-> <<>>] /\ hist = <<>>
 
 Drift(dr, ok, sig, rec) ==
@@ -29,7 +29,7 @@ Drift(dr, ok, sig, rec) ==
 Case == /\ e.ev = "case"
         /\ a' = T(e.shape, e.data) /\ cid' = e["case"] /\ ncase' = ncase + 1
         /\ src' = [source |-> e.source, shape |-> e.shape] /\ hist' = <<>>
-        /\ UNCHANGED <<nbad, ndrift, nstep, nok>>
+        /\ UNCHANGED <<nbad, ndrift, nstep, nok, nnoop>>
 
 IsAppend(o) == o.op \in {"append", "append_over"}
 Other(ev) == T(ev.other_shape, ev.other_data)
@@ -48,7 +48,7 @@ ConformsEv(t, ev) ==
        /\ ev.shape = Want(t, ev).shape /\ ev.data = Want(t, ev).data
   ELSE Conforms(t, ev.op, ev.shape, ev.data)
 \* documented errors: strict view slicing; exceeding the capacity (append_over reports the failed third append)
-Documented(t, ev) == StrictErr(t, ev.op) \/ ev.op.op = "append_over"
+Documented(t, ev) == StrictErr(t, ev.op) \/ ImplErr(t, ev.op) \/ ev.op.op = "append_over"
     \/ (ev.op.op = "reshape_view")   \* view-only reshape needs a contiguous source, which the abstract model does not see
 
 Step ==
@@ -58,7 +58,7 @@ Step ==
          rec == [event |-> ev, before |-> a, cid |-> cid, source |-> src, ops |-> Append(hist, ev.op)]
          sig(kind, what) == [kind |-> kind, api |-> ev.op.op, what |-> what]
      IN
-     IF ev.outcome = "skipped" THEN UNCHANGED <<nbad, ndrift, a, nok>>
+     IF ev.outcome = "skipped" THEN UNCHANGED <<nbad, ndrift, a, nok, nnoop>>
      ELSE IF ok /\ def
      THEN \E want \in {Want(a, ev)} :
             /\ nbad' = IF ConformsEv(a, ev) THEN nbad
@@ -70,13 +70,17 @@ Step ==
             \* a chain continues on the REAL result: after a flagged step resynchronise on what the
             \* code returned, otherwise advance on the specified successor
             /\ a' = IF ConformsEv(a, ev) THEN want ELSE T(ev.shape, ev.data)
-            /\ ndrift' = ndrift /\ nok' = nok + 1
+            /\ ndrift' = ndrift /\ nok' = nok + 1 /\ nnoop' = nnoop
      ELSE IF ok /\ ~def
      THEN \* a non-empty result fabricated for a call the model rejects is a violation; an EMPTY
           \* result (no element was produced) for such a call is reported as drift only
           /\ nbad' = IF ev.data = <<>> THEN nbad
                      ELSE Flag(nbad, FALSE, sig("accepted_undefined", "model has no result"), rec)
-          /\ ndrift' = Drift(ndrift, ev.data # <<>>, [kind |-> "accepted_undefined_empty", api |-> ev.op.op, outcome |-> "ok"], rec)
+          \* (an EMPTY tensor returned unchanged - e.g. append / clip_dim with an axis >= ndim, where the
+          \* release build reads a stride as the size - is only counted: nothing was produced or lost)
+          /\ ndrift' = Drift(ndrift, ev.data # <<>> \/ ev.shape = a.shape,
+                             [kind |-> "accepted_undefined_empty", api |-> ev.op.op, outcome |-> "ok"], rec)
+          /\ nnoop' = nnoop + (IF ev.data = <<>> /\ ev.shape = a.shape THEN 1 ELSE 0)
           \* resynchronise on what the code returned so that one failure does not cascade
           /\ a' = T(ev.shape, ev.data) /\ nok' = nok + 1
      ELSE /\ ndrift' = Drift(ndrift, ~def \/ Documented(a, ev),
@@ -85,7 +89,7 @@ Step ==
           /\ a' = IF ev.op.op = "append_over" /\ def /\ ev.outcome = "err" /\ ev.shape # <<>> THEN Want(a, ev) ELSE a
           /\ nbad' = IF ev.op.op = "append_over" /\ def /\ ev.outcome = "err" /\ ev.shape # <<>> /\ ~ConformsEv(a, ev)
                      THEN Flag(nbad, FALSE, sig("wrong_result", "after rejected append"), rec) ELSE nbad
-          /\ nok' = nok
+          /\ nok' = nok /\ nnoop' = nnoop
   /\ nstep' = nstep + 1 /\ hist' = Append(hist, e.op)
   /\ UNCHANGED <<ncase, cid, src>>
 
@@ -95,4 +99,5 @@ Report == l = NRec + 1 =>
             /\ ReportBad(nbad)
             /\ \A s \in DOMAIN ndrift : Print(<<"DRIFTSIG", ToJson(s), ndrift[s]>>, TRUE)
             /\ Stat("cases", ncase) /\ Stat("steps", nstep) /\ Stat("ok_steps", nok)
+            /\ Stat("undefined_noop_on_empty", nnoop)
 =============================================================================
